@@ -183,13 +183,20 @@ def make_sbix_table(
         image_data = color_glyph.bitmap
         metrics = BitmapMetrics.create(config, image_data, strike.ppem)
 
+        # center the bitmap on the line, same as the cbdt bearing; rounding ascent and
+        # line height separately can leave the top edge more than a pixel off
+        top = round(
+            config.ascender * strike.ppem / float(config.upem)
+            - 0.5 * (metrics.line_height - image_data.size[1])
+        )
+
         glyph_name = ttfont.getGlyphName(color_glyph.glyph_id)
         glyph = SbixGlyph(
             graphicType="png",
             glyphName=glyph_name,
             imageData=image_data,
             originOffsetX=metrics.x_offset,
-            originOffsetY=metrics.line_ascent - metrics.line_height,
+            originOffsetY=top - image_data.size[1],
         )
         strike.glyphs[glyph_name] = glyph
 
